@@ -24,11 +24,11 @@ type Req struct {
 	Headers []Hdr
 
 	// derivation: which variant each factor took
-	Variant map[string]string
-	Key     string   // the key value a compliant server must use ("" if none/ambiguous)
-	Protos  []string // subprotocols offered, in client order, across headers
+	Variant  map[string]string
+	Key      string   // the key value a compliant server must use ("" if none/ambiguous)
+	Protos   []string // subprotocols offered, in client order, across headers
 	ExtNames []string // extension names offered
-	Verdict ref.Verdict
+	Verdict  ref.Verdict
 }
 
 // Bytes renders the request.
